@@ -196,6 +196,16 @@ where
             evs.push(json!({"e": "skip"}));
             continue;
         }
+        // an inner transport only reports the closure of a listener it has (the puppet would otherwise remember the
+        // id as removed and refuse a later listen_on / remove_listener for it: an artefact, not a combinator matter)
+        if name == "inj" && gs("k").starts_with("closed") {
+            let lid = env.ids[id];
+            let has = env.w[side].with(|g| g.listen_calls.iter().any(|(l, _)| *l == lid) && !g.removed.contains(&lid));
+            if !has {
+                evs.push(json!({"e": "skip"}));
+                continue;
+            }
+        }
         let before = env.counts();
         let r = vcommon::guard(|| match name.as_str() {
             "listen" => {
@@ -354,6 +364,10 @@ where
                     }
                     if ev["e"] == "remove" && ev["res"] == true {
                         info.live.retain(|x| *x != id);
+                    }
+                    if ev["e"] == "poll" && (ev["res"] == "closed" || ev["res"] == "closederr") {
+                        let gone = ev["id"].as_i64().unwrap_or(-1);
+                        info.live.retain(|x| *x as i64 != gone);
                     }
                     if ev["e"] == "dial" && ev["res"] == "ok" {
                         let side = if after[2][0] > before[2][0] { 0 } else { 1 };
@@ -567,7 +581,12 @@ fn run_random(out: &mut Out, rng: &mut rand::rngs::StdRng) {
             0..=11 => json!({"a": "listen", "id": (0..NIDS).find(|i| !info.used.contains(i)).unwrap_or(id), "addr": addr}),
             12..=17 => json!({"a": "remove", "id": if !info.live.is_empty() && rng.gen_bool(0.7) { info.live[rng.gen_range(0..info.live.len())] } else { id }}),
             18..=32 => json!({"a": "dial", "addr": addr}),
-            33..=50 => json!({"a": "inj", "s": s, "k": (["newaddr", "expired", "incoming", "incoming", "incoming", "closed", "closederr", "error"][rng.gen_range(0..8)]), "id": id, "addr": addr, "addr2": rng.gen_range(0..NADDR)}),
+            33..=50 => {
+                let k = ["newaddr", "expired", "incoming", "incoming", "incoming", "closed", "closederr", "error"][rng.gen_range(0..8)];
+                // closures (and most other events) concern a listener that exists; its side is tried at random
+                let lid = if !info.live.is_empty() && (k.starts_with("closed") || rng.gen_bool(0.7)) { info.live[rng.gen_range(0..info.live.len())] } else { id };
+                json!({"a": "inj", "s": s, "k": k, "id": lid, "addr": addr, "addr2": rng.gen_range(0..NADDR)})
+            }
             51..=68 => json!({"a": "poll"}),
             69..=84 => {
                 let unfinished: Vec<&&Fut> = open.iter().filter(|f| !f.fin).collect();
